@@ -1305,7 +1305,12 @@ fn mutate(rng: &mut Rng, s: &str) -> String {
         }
         1 => {
             let mut o: String = chars[..p].iter().collect();
-            o.push_str(*rng.pick(INSERTS));
+            if rng.chance(1, 5) {
+                // any UTF-8 lead byte (readers that compare or slice bytewise)
+                o.push(*rng.pick(&gen::lead_byte_chars()));
+            } else {
+                o.push_str(*rng.pick(INSERTS));
+            }
             o.extend(chars[p..].iter());
             o
         }
